@@ -118,15 +118,21 @@ class SessionSim(Sim):
         rng = random.Random('%s:sessions:%d' % (self.seed, self.step))
         self.W.begin_op(budget=self.budget * 50)
         try:
-            if 'invariance' in self.session_oracles:
-                self.check_invariance(op)
-            cfgs = self.session_configs(rng)[:self.configs_per_state]
-            for cfg in cfgs:
-                if 'expand' in self.session_oracles or 'invariance' in self.session_oracles:
-                    cfg = self.with_expand(cfg, rng)
-                elif 'expand' not in cfg:
-                    cfg = dict(cfg, expand='')
-                self.run_session(cfg, rng)
+            with warnings.catch_warnings():
+                if self.W.strict_warnings:
+                    # a host (or CI configuration) that turns deprecation warnings into
+                    # errors; queries only - what happens during add/remove is not judged
+                    warnings.filterwarnings('error', category=DeprecationWarning)
+                    warnings.filterwarnings('error', category=PendingDeprecationWarning)
+                if 'invariance' in self.session_oracles:
+                    self.check_invariance(op)
+                cfgs = self.session_configs(rng)[:self.configs_per_state]
+                for cfg in cfgs:
+                    if 'expand' in self.session_oracles or 'invariance' in self.session_oracles:
+                        cfg = self.with_expand(cfg, rng)
+                    elif 'expand' not in cfg:
+                        cfg = dict(cfg, expand='')
+                    self.run_session(cfg, rng)
         finally:
             self.W.end_op()
 
@@ -317,7 +323,9 @@ json.dump(out, sys.stdout)
 
         def safe(fn):
             try:
-                return fn()
+                with warnings.catch_warnings():
+                    warnings.simplefilter('ignore', wn.WnWarning)
+                    return fn()
             except wn.Error:
                 return None
 
@@ -432,6 +440,22 @@ json.dump(out, sys.stdout)
                 chk(e, 'senses(%r)' % f, 'Wordnet.senses(form)')
             for e in w.synsets(f):
                 chk(e, 'synsets(%r)' % f, 'Wordnet.synsets(form)')
+            # ... and with a part-of-speech filter
+            for pos in ('a', 's', 'n'):
+                for e in w.words(f, pos):
+                    chk(e, 'words(%r, %r)' % (f, pos), 'Wordnet.words(form, pos)')
+                for e in w.senses(f, pos=pos):
+                    chk(e, 'senses(%r, %r)' % (f, pos), 'Wordnet.senses(form, pos)')
+                for e in w.synsets(f, pos=pos):
+                    chk(e, 'synsets(%r, %r)' % (f, pos), 'Wordnet.synsets(form, pos)')
+                if default or pos == 'n' or f is not forms[0]:
+                    continue
+                kw = {'lexicon': ctx['cfg'].get('lexicon'), 'lang': ctx['cfg'].get('lang')}
+                for fn, what in ((wn.words, 'wn.words'), (wn.senses, 'wn.senses'),
+                                 (wn.synsets, 'wn.synsets')):
+                    for e in safe(lambda: fn(f, pos=pos, **kw)) or []:
+                        chk(e, '%s(%r, pos=%r, ...)' % (what, f, pos),
+                            '%s(form, pos, lexicon, lang)' % what)
 
     # -- C04: invariance --------------------------------------------------------------------
     def transcript(self, w, strip_annotations=False):
@@ -457,6 +481,15 @@ json.dump(out, sys.stdout)
         img['ilis'] = sorted(canon([i.id, i.status, i.definition(), observe._meta(i.metadata())])
                              for i in w.ilis())
         img['expand'] = sorted(lx.specifier() for lx in w.expanded_lexicons())
+        # form searches with a part-of-speech filter
+        fs = {}
+        for x in w.words()[:2]:
+            f = str(x.lemma())
+            for pos in (None, x.pos, 'a' if x.pos != 'a' else 's'):
+                fs['%s/%s' % (f, pos)] = [sorted(observe.ekey(e) for e in w.words(f, pos)),
+                                          sorted(observe.ekey(e) for e in w.senses(f, pos)),
+                                          sorted(observe.ekey(e) for e in w.synsets(f, pos))]
+        img['form_pos_searches'] = fs
         try:
             img['describe'] = w.describe()
         except TypeError:
@@ -692,6 +725,11 @@ json.dump(out, sys.stdout)
             targets.append({'lexicon': t})
             targets.append({'lexicon': '%s:*' % self.u['lexicons'][t]['id']})
             targets.append({'lang': self.u['lexicons'][t]['language']})
+            # a specifier AND a language: the targets are the lexicons matching both
+            langs = sorted({self.u['lexicons'][x]['language'] for x in inst})
+            targets.append({'lexicon': rng.choice(['*', '%s*' % self.u['lexicons'][t]['id'][0],
+                                                   '%s:*' % self.u['lexicons'][t]['id']]),
+                            'lang': rng.choice(langs)})
         amb = any(isinstance(v.get('synset'), compare.Ambiguous) for v in exp['senses'].values())
         for ss in w.synsets():
             key = observe.ekey(ss)
@@ -702,8 +740,7 @@ json.dump(out, sys.stdout)
                 try:
                     with warnings.catch_warnings():
                         warnings.simplefilter('ignore')
-                        got = ss.translate(**({'lexicon': tgt['lexicon']} if 'lexicon' in tgt
-                                              else {'lang': tgt['lang']}))
+                        got = ss.translate(**tgt)
                 except wn.Error:
                     if want:
                         raise self.v('translate', 'Synset.translate() raised although the '
